@@ -12,8 +12,8 @@ import (
 // ZZLock / ZZWrite are the full decoded records of one key.
 type ZZLock struct {
 	StartTS, TTL, ForUpdateTS, TxnSize, MinCommitTS uint64
-	Primary, Value                                 []byte
-	Op                                             kvrpcpb.Op
+	Primary, Value                                  []byte
+	Op                                              kvrpcpb.Op
 }
 type ZZWrite struct {
 	Type              int // 0 put 1 delete 2 rollback 3 lock
@@ -83,3 +83,6 @@ func (mvcc *MVCCLevelDB) ZZWipe() error {
 	mvcc.deadlockDetector = deadlock.NewDetector()
 	return mvcc.doRawDeleteRange("", nil, nil)
 }
+
+// ZZDetector exposes the deadlock detector (its wait-for graph is dumped after every command).
+func (mvcc *MVCCLevelDB) ZZDetector() *deadlock.Detector { return mvcc.deadlockDetector }
